@@ -238,6 +238,23 @@ def main():
                 print("%s %s:%d [%s]\n    - %s\n    + %s%s" % (r["id"], r["file"], r["line"], r["kind"], r["old"].strip(), r["new"].strip(),
                                                                ("\n    => " + ", ".join(sorted(x for v in r["fired"].values() for x in v))) if r.get("fired") else ""))
         return
+    if args.cmd == "summary":
+        # the committed summary (selftest/mutation_sweep.json): class counts, and every mutant that compiles and passes the tests
+        # with what reports it today (class B) or nothing (class A)
+        ok = [r for r in results.values() if r.get("compiles") and not r.get("warnings")]
+        surv = [r for r in ok if r.get("tests_pass")]
+        out = {"mutants": len(results), "not_compiling_or_warning": len(results) - len(ok),
+               "killed_by_tests": len(ok) - len(surv), "killed_by_tests_and_reported": len([r for r in ok if not r.get("tests_pass") and r.get("fired")]),
+               "survive_tests": len(surv), "survive_reported": len([r for r in surv if r.get("fired")]),
+               "survive_unreported": len([r for r in surv if not r.get("fired")]),
+               "reported_only_after_rules_were_added": len([r for r in surv if r.get("fired_on_recheck")]),
+               "survivors": [{"id": r["id"], "file": r["file"], "line": r["line"], "kind": r["kind"], "old": r["old"].strip()[:160], "new": r["new"].strip()[:160],
+                              "reported_by": sorted(x for v in (r.get("fired") or {}).values() for x in v),
+                              "after_recheck": bool(r.get("fired_on_recheck"))}
+                             for r in sorted(surv, key=lambda r: (r["file"], r["line"], r["id"]))]}
+        json.dump(out, open("/verif/selftest/mutation_sweep.json", "w"), indent=1)
+        print({k: v for k, v in out.items() if k != "survivors"})
+        return
     if args.cmd == "recheck":
         # run the checks again (current rules) on every mutant of class A: compiles, passes the tests, was not reported
         A = [r for r in results.values() if r.get("compiles") and not r.get("warnings") and r.get("tests_pass") and not r.get("fired")]
